@@ -5,7 +5,8 @@
    occurrences share a line.  `recorded_of offs [] layout` is the ground truth of what the replacement passes record:
    for the final layout of a line (final column, spec number in application order), an occurrence of spec k is recorded
    at its column in the text right after spec k was applied, i.e. with the later-applied specs' tokens to its left still
-   unreplaced.  Text replacement itself and the parser's column conventions are decided by correspondence and oracle. *)
+   unreplaced.  C14_text_*: what the replacement pass does to the text that is NOT an occurrence.  Where occurrences are found and
+   the parser's column conventions are decided by correspondence and oracle. *)
 From Coq Require Import List ZArith NArith Bool.
 Import ListNotations.
 From PyccoloV Require Import model.Augment proofs.AugmentProofs.
@@ -13,6 +14,28 @@ From PyccoloV Require Import model.Augment proofs.AugmentProofs.
 (* for every number of specs with arbitrary length changes (shrinking or growing), every application order and every
    multiset of occurrences on a line: when sorting the recorded columns keeps the true left-to-right order, every
    corrected column is the occurrence's column in the fully transformed line *)
+(* the text: replace_tokens copies what stands between tokens and inside strings, f-string literal parts and comments from the
+   source.  Replacing a token by itself gives the source back for EVERY token sequence - nothing is lost, duplicated or re-spaced,
+   occurrences or not; and a source in which no code token starts an occurrence comes back unchanged for any replacement, with
+   nothing recorded (before the repair the text was rebuilt from token strings and blanks: tabs, form feeds, backslash
+   continuations and `{{` in f-strings were damaged in files that use no token at all). *)
+Theorem C14_text_self_identity : forall tok toks, fst (replace_tokens tok tok toks) = source_of toks.
+Proof. exact replace_self_identity. Qed.
+Print Assumptions C14_text_self_identity.
+Theorem C14_text_no_occurrence : forall tok repl toks,
+  (forall t, In t toks -> t_opaque t = true \/ t_text t = [] \/ prefix_of (t_text t) tok = false) ->
+  replace_tokens tok repl toks = (source_of toks, []).
+Proof. exact replace_no_occurrence. Qed.
+Print Assumptions C14_text_no_occurrence.
+(* `x\t=  a?.b # a?.b`: the tab, the two blanks and the comment survive; one occurrence at column 6 of the new text *)
+Example C14_text_nonvacuous :
+  let tk g x o c := {| t_gap := g; t_text := x; t_opaque := o; t_row := 1; t_col := c |} in
+  replace_tokens [63; 46]%N [46]%N
+    [tk [] [120]%N false 0%Z; tk [9]%N [61]%N false 2%Z; tk [32; 32]%N [97]%N false 5%Z; tk [] [63]%N false 6%Z; tk [] [46]%N false 7%Z;
+     tk [] [98]%N false 8%Z; tk [32]%N [35; 32; 97; 63; 46; 98]%N true 10%Z]
+  = ([120; 9; 61; 32; 32; 97; 46; 98; 32; 35; 32; 97; 63; 46; 98]%N, [(1, 6)]%Z).
+Proof. vm_compute. reflexivity. Qed.
+
 Theorem C14_cols_partial : forall offs layout,
   sort_occs (recorded_of offs [] layout) = Some (recorded_of offs [] layout) ->
   fix_line offs (recorded_of offs [] layout) = Some layout.
